@@ -120,7 +120,73 @@ func Check(texts map[string]string, imp types.Importer, pkgPath string) *Checked
 		},
 	}
 	c.Pkg, _ = conf.Check(pkgPath, c.Fset, c.Files, c.Info)
+	c.stabilise()
 	return c
+}
+
+// mapOrdered reports whether go/types emits msg from a loop over a Go map (scope.elems), i.e. in an order
+// that differs from run to run: the file-scope/package-scope conflicts of resolver.go ("x already declared
+// through import of ...") and the unused labels of labels.go. It returns the group the message belongs to.
+func mapOrdered(msg string) int {
+	switch {
+	case strings.Contains(msg, " already declared through import of "),
+		strings.Contains(msg, " already declared through dot-import of "):
+		return 1
+	case strings.HasPrefix(msg, "label ") && strings.HasSuffix(msg, " declared and not used"):
+		return 2
+	}
+	return 0
+}
+
+// stabilise makes the order of the collected type errors a function of the checked text alone: every maximal
+// run of consecutive errors that go/types produced by ranging over one map is sorted by (position, message).
+// An error is a head message together with the tab-indented sub-errors go/types reports right after it
+// ("\tother declaration of x"); they move as one unit. Without this "the first error" of a file with two such
+// errors is picked by Go's randomised map iteration, and a violation class keyed by it flips between runs (a
+// false alarm of the check, not of gogen).
+func (c *Checked) stabilise() {
+	type unit struct {
+		lo, hi int // c.Errs[lo:hi]
+		g      int
+	}
+	var units []unit
+	for i := 0; i < len(c.Errs); {
+		j := i + 1
+		for j < len(c.Errs) && strings.HasPrefix(c.Errs[j], "\t") {
+			j++
+		}
+		units = append(units, unit{i, j, mapOrdered(c.Errs[i])})
+		i = j
+	}
+	changed := false
+	for i := 0; i < len(units); {
+		j := i + 1
+		for units[i].g != 0 && j < len(units) && units[j].g == units[i].g {
+			j++
+		}
+		if j-i > 1 {
+			run := units[i:j]
+			sort.SliceStable(run, func(a, b int) bool {
+				pa, pb := c.ErrPos[run[a].lo], c.ErrPos[run[b].lo]
+				if pa != pb {
+					return pa < pb
+				}
+				return strings.Join(c.Errs[run[a].lo:run[a].hi], "\n") < strings.Join(c.Errs[run[b].lo:run[b].hi], "\n")
+			})
+			changed = true
+		}
+		i = j
+	}
+	if !changed {
+		return
+	}
+	errs := make([]string, 0, len(c.Errs))
+	pos := make([]token.Pos, 0, len(c.ErrPos))
+	for _, u := range units {
+		errs = append(errs, c.Errs[u.lo:u.hi]...)
+		pos = append(pos, c.ErrPos[u.lo:u.hi]...)
+	}
+	c.Errs, c.ErrPos = errs, pos
 }
 
 // CheckSrc checks one source text.
